@@ -173,7 +173,7 @@ def finish(pid, mod, tier, seed, results, wall):
 
     if violations:
         code = EXIT_VIOLATION
-    elif unconfirmed or errors or unmodelled or mism:
+    elif unconfirmed or errors or unmodelled or (len(mism) > max(2, tot['twin_ok'])):
         code = EXIT_MACHINERY
     elif inconcl or nonexh:
         code = EXIT_INCONCLUSIVE
@@ -206,6 +206,8 @@ def finish(pid, mod, tier, seed, results, wall):
             per_harness=per_h, known_findings_reported=len(seen_known),
             exhaustive=(not nonexh and not inconcl),
             samples=samples or [dict(note='no sample recorded')],
+            twin_mismatches=len(mism), cached_obligations=sum(r.get('cached', 0) for r in results),
+            slowest_obligations=sorted([x for r in results for x in r.get('slowest', [])], reverse=True)[:8],
             notes=notes,
             solver=f"z3 {__import__('z3').get_version_string()}",
         ),
